@@ -490,7 +490,6 @@ def rule_f(ctx, R, sector, scan_site):
     for b, coord_params in ((entry, slice_params(entry)), (s, slice_params(s)), (sector, []), (scan, [uidx + 1])):
         ctx.fn(b.path)
         dd = fl.deps_of(b)
-        tcd = cfg.transitive_control_deps(b, acyclic=True)
         v = Vals(b)
         panics = list(pat.panic_blocks(b))
         for bi, blk in enumerate(b.blocks):
@@ -501,6 +500,17 @@ def rule_f(ctx, R, sector, scan_site):
             heads = loop_next_sites(scan, v)
             if len(heads) == 1:
                 skip = scan.reachable_from(heads[0][3])   # behind the exhaustion edge: C06-a
+        # blocks from which a normal return is still possible; a switch DECIDES a panic when it can still return but one of its
+        # successors cannot (every path from that successor ends in the panic)
+        preds = b.preds()
+        can_return, work = set(), [i for i, blk in enumerate(b.blocks) if not blk["cleanup"] and blk["term"]["k"] == "return"]
+        while work:
+            x = work.pop()
+            if x in can_return:
+                continue
+            can_return.add(x)
+            work.extend(p_ for p_ in preds[x] if not b.blocks[p_]["cleanup"])
+        succs = b.succs()
         for pb in panics:
             if pb in skip:
                 continue
@@ -510,17 +520,21 @@ def rule_f(ctx, R, sector, scan_site):
                 co = b.blocks[pb]["term"]["cond"]
                 if co["k"] in ("copy", "move"):
                     conds.append((pb, co["place"]["l"]))
-            for (sb, tgt) in tcd[pb]:
-                t = b.blocks[sb]["term"]
-                if t["k"] == "switch" and t["discr"]["k"] in ("copy", "move"):
-                    conds.append((sb, t["discr"]["place"]["l"]))
+            else:
+                doomed_reach = set(x for x in range(len(b.blocks)) if x not in can_return and pb in b.reachable_from(x))
+                for sb, blk in enumerate(b.blocks):
+                    t = blk["term"]
+                    if blk["cleanup"] or t["k"] != "switch" or sb not in can_return or t["discr"]["k"] not in ("copy", "move"):
+                        continue
+                    if any(sx in doomed_reach for sx in succs[sb]):
+                        conds.append((sb, t["discr"]["place"]["l"]))
             for sb, dl in conds:
                 srcs = dd["close"](("n", dl, None))
                 tainted = sorted(set(str(x[:2]) for x in srcs if x[0] == "site" or (x[0] == "param" and x[1] in coord_params)))
                 if tainted:
                     ctx.ob("C06-f", "panic independent of coordinate values", False, b.path, "value-dependent-panic",
                            where=pat.where(b.blocks[pb]["term"]),
-                           detail="the panic at %s is guarded by a condition (%s) computed from coordinate values %s: some u in [0,1) panics before / "
+                           detail="the panic at %s is decided by a condition (%s) computed from coordinate values %s: some u in [0,1) panics before / "
                                   "instead of selecting an edge" % (pat.where(b.blocks[pb]["term"]), pat.where(b.blocks[sb]["term"]), tainted))
     ctx.ob("C06-f", "bodies examined on the selection path: 4 (entry, sample, sector, scan); explicit panic / assertion sites outside the scan's "
                     "exhaustion region: %d" % n, True, sector.path, "panic-scan")
